@@ -373,7 +373,6 @@ func (c *c24Ctx) check(cs c24Case, pb *cppb.PathSegment, beacon bool, v infra.Ve
 			r.Class(fmt.Sprintf("%s/%s/lenient=parse", cs.Kind, cs.Config))
 			return true
 		}
-		r.Eval(1)
 		var verr error
 		pv, stack := mon.Try(func() { verr = segverifier.VerifySegment(ctx, v, nil, lp) })
 		cs.Path = "lenient (no structural validation)"
@@ -508,20 +507,23 @@ func (c *c24Ctx) family(rng *rand.Rand, base int) {
 	if thorough {
 		nInfo, nHB, nSig = 0, 0, 0 // every byte
 	}
-	mask := func() byte { return byte(1 + rng.IntN(255)) }
-	for _, p := range c24Positions(rng, len(pb.SegmentInfo), nInfo) {
+	// Byte positions and masks come from a per-base sub-stream: field lengths
+	// depend on fresh signatures/timestamps and must not shift the main stream.
+	brng := r.Rand(fmt.Sprint("c24-bytes-", base))
+	mask := func() byte { return byte(1 + brng.IntN(255)) }
+	for _, p := range c24Positions(brng, len(pb.SegmentInfo), nInfo) {
 		m := clonePB(pb)
 		m.SegmentInfo[p] ^= mask()
 		all("info-byte", fmt.Sprintf("byte %d", p), m, beacon, false, "C24:accepts:info-byte")
 	}
 	for i := 0; i < n; i++ {
-		for _, p := range c24Positions(rng, len(pb.AsEntries[i].Signed.HeaderAndBody), nHB) {
+		for _, p := range c24Positions(brng, len(pb.AsEntries[i].Signed.HeaderAndBody), nHB) {
 			m := clonePB(pb)
 			m.AsEntries[i].Signed.HeaderAndBody[p] ^= mask()
 			all("header-and-body-byte", fmt.Sprintf("entry %d byte %d", i, p), m, beacon, false, "C24:accepts:header-and-body-byte")
 		}
 		if i < n-1 {
-			for _, p := range c24Positions(rng, len(pb.AsEntries[i].Signed.Signature), nSig) {
+			for _, p := range c24Positions(brng, len(pb.AsEntries[i].Signed.Signature), nSig) {
 				m := clonePB(pb)
 				m.AsEntries[i].Signed.Signature[p] ^= mask()
 				all("earlier-signature-byte", fmt.Sprintf("entry %d byte %d", i, p), m, beacon, false, "C24:accepts:earlier-signature-byte")
